@@ -1662,6 +1662,140 @@ def stage_coq(ctx):
         ctx.violation(f"exactint:{desc.get('kind')}", "scheme that only contracts does not return the network value (exact mismatch "
                       "against the Coq model)", desc)
     ctx.extra["coq_cases_exactint"] = len(vcol.cases)
+    pcol = COL["plaq"]
+    failed, errors = ctx.coq_cases("plaq", PLAQ_HEADER, pcol.cases, shard=200)
+    for path, err in errors:
+        ctx.broken_obligation("correspondence:plaq:" + path.split("/")[-1], err)
+    for c in failed:
+        desc, extra = pcol.info[c]
+        ctx.violation(f"plaq:{extra['tagk']}:sites", f"plaquette environment {desc['plaquette']} does not carry the ring of sites of the "
+                      f"model (env_sites_ok false): it carries {desc['env_sites']}", desc)
+    ctx.extra["coq_cases_plaq"] = len(pcol.cases)
+
+
+# ------------------------------------------------------------------------------
+# stage 2b: plaquette environments, systematically: first_contract x second_dense x shapes x non-square lattices
+
+
+PLAQ_HEADER = (
+    "From Coq Require Import ZArith List Bool.\n"
+    "From QV Require Import C12.PlaqModel.\n"
+    "Import ListNotations.\n"
+)
+
+
+def _sites_of(tn_env):
+    import re
+
+    seen = set()
+    for t in tn_env.tensors:
+        for tag in t.tags:
+            m = re.fullmatch(r"I(\d+),(\d+)", tag)
+            if m:
+                seen.add((int(m.group(1)), int(m.group(2))))
+    return sorted(seen)
+
+
+def stage_plaquettes(ctx):
+    """compute_plaquette_environments for both sweep orders (first_contract = 'x' / 'y' / automatic) x both kinds of
+    second sweep (dense / boundary) x plaquette shapes x non-square lattices.  Tie: the sites carried by every returned
+    environment are compared, inside Coq, with the ring of the model (C12_plaquette_*_is_ring); oracle: (environment |
+    plaquette) has no dangling index and contracts to the value of the whole (generous cap, cutoff 0).
+    Then row / column environment pairs for dense x equalize_norms."""
+    import quimb.tensor as qtn
+
+    rng = ctx.rng
+    col = COL["plaq"]
+    shapes = [(2, 2), (1, 2), (2, 1), (1, 1), (3, 2), (2, 3)]
+    combos = [("x", True), ("x", False), ("y", True), ("y", False)]
+    runs = []
+    if ctx.quick:
+        for k, (fc, sd) in enumerate(combos):
+            runs.append(((3, 4) if (k + ctx.seed) % 2 == 0 else (4, 3), (2, 2), fc, sd))
+            runs.append((rng.choice([(3, 4), (4, 3), (4, 4)]), shapes[1 + (k + ctx.seed) % 5], fc, sd))
+        runs += [((3, 4), (2, 2), None, None), ((4, 4), (3, 2), None, None), ((4, 3), (2, 2), None, None)]
+    else:
+        for lat in [(3, 4), (4, 3), (4, 4)]:
+            for shp in shapes:
+                for fc, sd in combos + [(None, None)]:
+                    runs.append((lat, shp, fc, sd))
+    for (Lx, Ly), (xb, yb), fc, sd in runs:
+        if xb > Lx or yb > Ly:
+            continue
+        layered = rng.random() < 0.2 and Lx * Ly <= 12 and (xb, yb) != (3, 2) and (xb, yb) != (2, 3)
+        if layered:
+            Lx, Ly = min(Lx, 3), min(Ly, 4) if Lx <= 3 else 3
+        d = {"net": "2dnorm" if layered else "2d", "Lx": Lx, "Ly": Ly, "D": 2, "seed": rng.randrange(10 ** 6)}
+        if rng.random() < 0.3:
+            d["dtype"] = "complex128"
+        mode = rng.choice(["mps", "mps", "mps", "dm", "full-bond"])
+        kw = {"mode": mode}
+        if fc is not None:
+            kw["first_contract"] = fc
+        if sd is not None:
+            kw["second_dense"] = sd
+        desc = {**d, "x_bsz": xb, "y_bsz": yb, **kw}
+        tn = make_network(d)
+        ref = exact_value(tn)
+        tagk = f"{fc or 'auto'}:{'dense' if sd else 'auto' if sd is None else 'boundary'}"
+        try:
+            penvs = tn.compute_plaquette_environments(x_bsz=xb, y_bsz=yb, max_bond=64, cutoff=0.0, **kw)
+        except Exception as e:
+            import traceback
+
+            ctx.violation(f"plaq:{tagk}:raised", f"compute_plaquette_environments raised {type(e).__name__}: {str(e)[:120]}",
+                          {"desc": desc, "traceback": traceback.format_exc()[-1000:]})
+            continue
+        want = {((i, j), (xb, yb)) for i in range(Lx - xb + 1) for j in range(Ly - yb + 1)}
+        if set(penvs) != want:
+            ctx.violation(f"plaq:{tagk}:keys", f"plaquette environments have keys {sorted(set(penvs) ^ want)[:4]} missing/extra",
+                          {"desc": desc})
+        for ((i0, j0), _), e in sorted(penvs.items()):
+            ctx.count(("plaqsys", str(sorted(desc.items(), key=str)), i0, j0), True)
+            ctx.bump(f"plaquette_systematic:{tagk}")
+            seen = _sites_of(e)
+            lit = "[" + "; ".join(f"({a}, {b})" for a, b in seen) + "]"
+            col.add({"desc": desc, "plaquette": [i0, j0], "env_sites": seen},
+                    f"env_sites_ok {Lx} {Ly} {i0} {j0} {xb}%nat {yb}%nat {lit}", tagk=tagk)
+            sites = [tn.site_tag(i0 + a, j0 + b) for a in range(xb) for b in range(yb)]
+            whole = qtn.TensorNetwork([e, tn.select_any(sites)])
+            if whole.outer_inds():
+                ctx.violation(f"plaq:{tagk}:dangling", f"plaquette environment ({i0},{j0}) of size ({xb},{yb}) on {Lx}x{Ly}: (env | "
+                              f"plaquette) has {len(whole.outer_inds())} dangling indices (environment carries sites {seen})",
+                              {"desc": desc, "plaquette": [i0, j0], "env_sites": seen})
+                continue
+            v = complex(whole.contract(all, optimize="auto-hq"))
+            if not close(v, ref):
+                ctx.violation(f"plaq:{tagk}:value", f"plaquette environment ({i0},{j0}) size ({xb},{yb}) | plaquette = {v} != {complex(ref)} "
+                              "(untruncated)", {"desc": desc, "plaquette": [i0, j0]})
+
+    # ---- row / column environment pairs: dense x equalize_norms -------------------------------------------------------
+    for which in "xy":
+        for dense in (True, False):
+            for eq in ((True, 1.0) if not ctx.quick else (rng.choice([True, 1.0]),)):
+                Lx, Ly = rng.choice([(4, 3), (3, 4), (3, 3)])
+                d = {"net": "2d", "Lx": Lx, "Ly": Ly, "D": 2, "seed": rng.randrange(10 ** 6)}
+                tn = make_network(d)
+                ref = exact_value(tn)
+                desc = {**d, "which": which, "dense": dense, "equalize_norms": eq}
+                key = f"env:{'dense' if dense else 'mps'}:equalize_norms"
+                try:
+                    envs = getattr(tn, f"compute_{which}_environments")(max_bond=64, cutoff=0.0, dense=dense, equalize_norms=eq)
+                except Exception as e:
+                    ctx.violation(key + ":raised", f"compute_{which}_environments(dense={dense}, equalize_norms={eq}) raised {e!r}"[:200],
+                                  {"desc": desc})
+                    continue
+                L = Lx if which == "x" else Ly
+                tagf = tn.x_tag if which == "x" else tn.y_tag
+                for i in range(L):
+                    ctx.count(("enveq", str(desc), i), True)
+                    ctx.bump("env_pair_equalize_checked")
+                    whole = qtn.TensorNetwork([envs[which + "min", i], tn.select(tagf(i)), envs[which + "max", i]])
+                    v = complex(whole.contract(all, optimize="auto-hq"))
+                    if not close(v, ref):
+                        ctx.violation(key, f"compute_{which}_environments(dense={dense}, equalize_norms={eq}): envs[{which}min,{i}] | line {i} | "
+                                      f"envs[{which}max,{i}] = {v} instead of {complex(ref)} (nothing truncated)", {"desc": desc, "i": i})
+                        break
 
 
 # ------------------------------------------------------------------------------
@@ -1942,12 +2076,14 @@ def run(ctx):
         "every compression (min(bond, other legs of either side) for the pair-local SVD/QR modes and the oblique "
         "projectors; the bond size itself for one-sided sweeps (1D/2D compressors) and environment/fit based modes)",
     ]
-    ctx.check_props(["Base/Sums.vo", "Base/TN.vo", "Base/TNExec.vo", "C12/Model.vo", "C12/Proofs.vo", "C12/Exact.vo", "C12/Props.v"])
-    COL["plans"], COL["values"] = Collector(), Collector()
+    ctx.check_props(["Base/Sums.vo", "Base/TN.vo", "Base/TNExec.vo", "C12/Model.vo", "C12/Proofs.vo", "C12/Exact.vo", "C12/PlaqModel.vo", "C12/PlaqProofs.vo",
+                     "C12/Props.v"])
+    COL["plans"], COL["values"], COL["plaq"] = Collector(), Collector(), Collector()
     try:
         ctx.stage(stage_plans)
         ctx.stage(stage_envs)
         ctx.stage(stage_exact_integer)
+        ctx.stage(stage_plaquettes)
         ctx.stage(stage_coq)
         ctx.stage(stage_env_oracle)
         ctx.stage(stage_shared_stores)
